@@ -40,7 +40,7 @@ func exportProfile() *Profile {
 	sort.Slice(known, func(i, j int) bool { return known[i] < known[j] })
 	for _, m := range known {
 		pm := PMsg{M: int(m), Fields: []PField{}}
-		if t := fit.VerifMesgType(m); t != nil {
+		if t := fit.VerifMesgType(m); t != nil && t.Kind() == reflect.Struct {
 			pm.Name = t.Name()
 			pm.NumFld = t.NumField()
 		}
